@@ -713,7 +713,7 @@ fn explore_subject(run: &mut Run, tier: Tier, id: &str, deadline: Instant, part:
 
     let full1 = id == "g5";
     let stride: usize = match (tier, id) {
-        (Tier::Quick, _) => 9,
+        (Tier::Quick, _) => 23,
         (Tier::Thorough, "g10") => 29,
         _ => 0, // class representatives only (g9 thorough: the rest follows in Part::Rest1)
     };
